@@ -2,7 +2,7 @@
 import math
 import numpy as np
 from .. import env, coq, runner, gates, tables, opsem, mcircuits
-from ..scripted import enumerate_runs
+from ..scripted import enumerate_runs, BranchExplosion
 
 LEVEL = 'proof'
 META = dict(
@@ -90,6 +90,9 @@ def case_checks(ctx, cirq, c, qs, mode, checks):
                     return np.array(st)
                 br = enumerate_runs(f)
                 branches = [(p, None, st) for p, st, _ in br]
+        except BranchExplosion:
+            ctx.count(entry + ':skipped-too-many-branches', [desc, entry], False)
+            continue
         except Exception as e:
             import traceback
             ctx.violation(f'{entry}:raises:{type(e).__name__}', f'{entry} raised {type(e).__name__}: {e} on {desc}',
